@@ -11,11 +11,11 @@ EXEC_NOTE = ("Trusted: Coq kernel + VM; the modelled fibertree runtime Model/Rt.
 
 CHECKS = {
  "C01": ("translation_validation",
-         "Coq theorems C01_nest_sound_partial (unbounded induction over the loop order: the co-iteration nest with unions, intersections and structural defaults computes sum-of-products at every point, for all inputs) and C01_nest_okb_sound_partial (certified validator: the rank structure and per-level co-iteration read off an emitted sum-of-products program are accepted by nest_okb => for ALL inputs that nest computes the Einsum's sum of products; evaluated by the kernel on every such program) + per emitted program translation validation: every program of a generated population of plain Einsums x loop orders x rank orders is compiled by the current tree, translated fail-closed to a Gallina AST and EXECUTED in the kernel VM on several inputs, its output compared with the dense oracle denote. The text-to-nest abstraction is not yet a theorem, hence translation_validation rather than proof.",
-         EXEC_NOTE, "Rocq theorem (nest induction) + kernel-evaluated execution of every emitted program vs the Gallina dense oracle", "DESIGN.md section 6 C01"),
+         "Coq theorems (Props/C01.v): C01_nest_sound_partial (unbounded induction over the loop order: the co-iteration nest with unions, intersections and structural defaults contributes sum-of-products at every point, for all inputs); C01_nest_full_okb_sound_partial (certified validator of one emitted sum-of-products program: rank structure, per-level co-iteration AND the update statement - operands multiplied per term, `<<=` only without reduction - accepted => for ALL inputs the nest as the text writes it leaves what the Einsum defines); C01_nest_take_full_okb_sound_partial / C01_nest_take1_full_okb_sound_partial (the same with take() terms, any inputs with non-zero stored leaves; side condition read off the rank structure: the selected operand holds every loop rank, not needed for a single term); C01_take_in_sum_refuted (finding F7 at model level: the side condition is necessary). The validator is evaluated by the kernel on the structure read off EVERY plain program (each is certified or is F7-shaped). + per emitted program translation validation: every program of a generated population (plain Einsums incl. repeated scalars, output-only ranks, scalars inside take(), unpartitioned index math) x loop orders x rank orders is compiled by the current tree, translated fail-closed to a Gallina AST and EXECUTED in the kernel VM on several inputs against the dense oracle. The text-to-nest abstraction (tools/nestview.py) is not a theorem, hence translation_validation rather than proof.",
+         EXEC_NOTE + "tools/nestview.py (fail-closed reading of the nest structure off the text).", "Rocq theorems (nest induction, certified validator evaluated per program) + kernel-evaluated execution of every emitted program vs the Gallina dense oracle", "DESIGN.md section 0A / 6 C01"),
  "C02": ("translation_validation",
-         "Coq theorems on the arithmetic of splitting by any positive step in stacks of any depth (exactly one partition chain per coordinate, n-way step bounds, merge recovers the coordinate) + kernel-evaluated execution of every emitted partitioned program (any loop order over the levels, literal/symbolic sizes not dividing or exceeding the extent) against the dense oracle.",
-         EXEC_NOTE, "Rocq theorems (lia over Z, list induction) + kernel-evaluated execution vs oracle", "DESIGN.md section 6 C02"),
+         "Coq theorems (Props/C02.v): arithmetic of splitting by any positive step in stacks of any depth (exactly one partition chain per coordinate, n-way step bounds, merge recovers the coordinate); laws of the runtime model's own operations for fibers of any size (split_uniform partitions, split then merge1 = identity incl. at depth d, halo characterisation, swizzle lookup/inverse); C02_partitioned_nest_sound_partial / _two_levels_partial: for ANY loop order over the levels the loop nest over shape-partitioned tensors contributes at every consistent point exactly the Einsum's value at the original point and nothing elsewhere, each original point having exactly one representative. Per program: the certified nest validator of C01 is evaluated by the kernel on the PARTITIONED nest read off every shape-partitioned product/take program together with the static side conditions of the partition theorems (same step and level names for every tensor holding the rank; the footer merges exactly the level chain) + kernel-evaluated execution of every emitted partitioned program (any loop order over the levels, literal/symbolic sizes not dividing or exceeding the extent, identical adjacent directives, index-math Einsums with W following Q) against the dense oracle; static side condition eager_inputs_aligned with targeted failing-input search.",
+         EXEC_NOTE + "tools/nestview.py, tools/patterns.py (fail-closed readings of the text).", "Rocq theorems (lia over Z, list induction, nest-level partition theorem, certified validator per program) + kernel-evaluated execution vs oracle", "DESIGN.md section 0A / 6 C02"),
  "C03": ("translation_validation",
          "Coq theorems about the interpreter's own splitEqual (chunks concatenate back, sizes) and the leader/follower boundary law (exactly one follower partition per coordinate, the leader's one) + kernel-evaluated execution of every emitted program with occupancy partitioning/flattening against the dense oracle.",
          EXEC_NOTE, "Rocq theorems (list induction over sorted boundaries) + kernel-evaluated execution vs oracle", "DESIGN.md section 6 C03"),
@@ -39,7 +39,7 @@ CHECKS = {
          "Coq theorems: the emitted slip counter discipline yields pairwise distinct stamps for any sequence (slip_unique), one per activity; canvas/metrics API calls of the modelled runtime are observation-only + kernel-evaluated execution of graphics-mode programs with a recording canvas: tensors equal the oracle, one activity per executed update, point arities, distinct stamps for well-ordered loop orders.",
          EXEC_NOTE, "Rocq theorems (list induction; frame) + kernel-evaluated execution with a recording canvas", "DESIGN.md section 6 C16"),
  "C08": ("translation_validation",
-         "CPython's hash-seeded iteration order is sampled (worker processes under 8/32 PYTHONHASHSEEDs), not modelled. Every distinct text emitted for one specification is decided closed by the verified (sound and complete) da checker and executed in the kernel VM on identical inputs against the oracle; every process also compiles each specification twice and the texts must be identical. Theorem part: exactness of the closedness verdict per variant (C08_variant_closedness_decided_partial); order-independence of hoisting is C10's theorem.",
+         "CPython's hash-seeded iteration order is sampled (worker processes under 6/24 PYTHONHASHSEEDs plus 4/16 forced pseudo-random iteration orders of every set the compiler builds with set()), not modelled. Every distinct text emitted for one specification is decided closed by the verified (sound and complete) da checker and executed in the kernel VM on identical inputs against the oracle; every process also compiles each specification twice and the texts must be identical. Theorem part: exactness of the closedness verdict per variant (C08_variant_closedness_decided_partial); order-independence of hoisting is C10's theorem.",
          EXEC_NOTE + "Hash seeds are sampled, not enumerated.", "seed-sampled variants, each decided by the proved da checker + kernel-evaluated execution on identical inputs", "DESIGN.md section 6 C08"),
  "C09": ("translation_validation",
          "Per-tree translation validation with CPython's own parser as the definition of what the text denotes: the object tree the translator built is dumped constructor-for-constructor (EParens included) into Model/HAst.v, the emitted text is parsed by CPython's ast into Model/Py.v, and inside coqc norm(strip(tree)) = norm(parse(text)) is decided by a sumbool equality (sound by construction) - same statements, nesting, operators, operands, tuple arities, keyword arguments, up to re-association of + chains and * chains only. Coq theorems: norm preserves the integer value of every arithmetic expression, is idempotent, its image is exactly the normal forms; the check returns OK iff the normalised trees are equal. Populations: all statement trees of C01-C05/C16/C11 + every expression CoordAccess.build_expr produces from generated affine sympy expressions.",
